@@ -24,14 +24,15 @@ ALPHA_KW = ["GROUP", "END_GROUP", "END", "=", "a", " ", "\n", "1", ";", "OBJECT"
 
 
 def judge(acc, kind, case_text, payload):
-    for d in impl.DIALECTS:
+    order = loaders.dialect_order(case_text)
+    for di, d in enumerate(order):
         r = loaders.outcome(d, case_text)
         acc.n += 1
         b = loaders.brief(r)
         acc.outcomes[b if b in ("ok", "LexerError", "ParseError") else "BAD"] += 1
         if r[0] in ("ok", "doc"):
             continue
-        case = {"kind": kind, "text": case_text, "dialect": d}
+        case = {"kind": kind, "text": case_text, "dialect": d, "prior_dialects": order[:di]}
         case.update(payload)
         acc.violation(case, ("spin:" if r[0] == "spin" else "escaped-" + r[1] + ":") + d,
                       "text %r -> %s" % (case_text[:120], b if r[0] == "spin" else repr(r[2])[:200]),
@@ -112,6 +113,28 @@ def shard_temporal(spec):
     return acc
 
 
+def shard_contexts(spec):
+    """grammar-directed inputs: every context template of C03 for a few spellings, in every dialect's
+    reading (whether the text is well-formed there or not does not matter here)"""
+    from . import c03
+    part, nparts = spec
+    acc = Acc()
+    seen = set()
+    i = 0
+    for text, exp, kind in (("7", 7, "int"), ("1.5", 1.5, "real"), ('"s t"', "s t", "qstr"), ("abc", "abc", "ustr"),
+                            ("16#-7F#", -127, "int"), ("-2#101#", -5, "int"), ("+.5E+3", 500.0, "real")):
+        for d in ("PVL", "OMNI"):
+            for ctxname, doc, items in c03.contexts(d, text, exp, kind):
+                if doc in seen:
+                    continue
+                seen.add(doc)
+                i += 1
+                if i % nparts == part:
+                    judge(acc, "context", doc, {})
+                    acc.nontrivial += 1
+    return acc
+
+
 def corpus_files():
     root = os.path.join(impl.REPO, "tests", "data")
     fs = sorted(glob.glob(os.path.join(root, "**", "*"), recursive=True))
@@ -185,6 +208,7 @@ def run(ctx):
     ctx.pmap(shard_words, [(kw, [a, b]) for a in ALPHA_KW for b in ALPHA_KW], into=acc)
     # field products of date / time / zone fragments (valid and invalid) as values
     ctx.pmap(shard_temporal, [(p, 32) for p in range(32)], into=acc)
+    ctx.pmap(shard_contexts, [(p, 16) for p in range(16)], into=acc)
     # corpus, exhaustive single faults
     files = corpus_files()
     cspecs = []
@@ -207,7 +231,7 @@ def run(ctx):
         "evaluations": acc.n, "distinct_nontrivial": acc.nontrivial,
         "rule": "every string over %r up to length %d, over %r up to length %d, over %r up to length %d; every "
                 "token sequence of length <= %d over the 18-token alphabet rendered with single spaces; every "
-                "concatenation of <= %d items of %r; every product of date x time x zone fragments (valid and invalid) in 4 value contexts; every single-character fault (quick: truncation at every position of files <= 250 chars, "
+                "concatenation of <= %d items of %r; every C03 context template for 7 spellings; every product of date x time x zone fragments (valid and invalid) in 4 value contexts; every single-character fault (quick: truncation at every position of files <= 250 chars, "
                 "at every 3rd/12th position and every line start of longer ones, deletion in files <= 250 chars; thorough: truncation, deletion, duplication, adjacent swap) of "
                 "%d corpus files (%d characters); each through the 5 loader configurations under a step "
                 "budget of 200+60*len (x20 before a spin is reported); distinct_nontrivial counts distinct "
@@ -226,6 +250,7 @@ def run(ctx):
 
 def replay(case):
     acc = Acc()
+    loaders.run_prior(case, case["text"])
     r = loaders.outcome(case["dialect"], case["text"])
     if r[0] in ("ok", "doc"):
         return []
@@ -239,5 +264,6 @@ def candidates(case):
     if len(t) > 400:
         return
     for i in range(len(t)):
-        c = {"kind": case["kind"], "dialect": case["dialect"], "text": t[:i] + t[i + 1:]}
+        c = {"kind": case["kind"], "dialect": case["dialect"], "text": t[:i] + t[i + 1:],
+             "prior_dialects": case.get("prior_dialects", [])}
         yield c
